@@ -20,7 +20,7 @@ import (
 //	op [3, k]          updateWindow(k) (application consumed k bytes)   obs [streamWU, snap...]
 //	op [4, n]          updateFlowControl(n) (BDP estimate)              obs [connWU, #conn WU items, settingsVal, snap...]
 //	op [5]             BDP ping: trInFlow.reset()                       obs [connWU, snap...]
-//	snap = limit, pendingData, pendingUpdate, delta, conn limit, conn unacked
+//	snap = limit, pendingData, pendingUpdate, delta, conn limit, conn unacked, uint32(t.initialWindowSize)
 type vInFlowSim struct {
 	t         *http2Server
 	s         *ServerStream
@@ -87,7 +87,7 @@ func (m *vInFlowSim) drain() (connWU, streamWU, rstFC, settings int64) {
 func (m *vInFlowSim) snap() []int64 {
 	f := &m.s.fc
 	return []int64{int64(f.limit), int64(f.pendingData), int64(f.pendingUpdate), int64(f.delta),
-		int64(m.t.fc.limit), int64(m.t.fc.unacked)}
+		int64(m.t.fc.limit), int64(m.t.fc.unacked), int64(uint32(m.t.initialWindowSize))}
 }
 
 func (m *vInFlowSim) alive() bool {
@@ -211,9 +211,9 @@ func (g *vInFlowGenState) do(op []int64) {
 		g.unread -= op[1]
 		g.want -= op[1]
 	case 4:
-		if !g.dead {
-			g.adv += op[1] - g.lim
-			g.lim = op[1]
+		if !g.dead && len(o) > 2 && o[2] != 0 { // SETTINGS_INITIAL_WINDOW_SIZE = o[2] was sent
+			g.adv += o[2] - g.lim
+			g.lim = o[2]
 		}
 	}
 }
@@ -238,11 +238,11 @@ func vInFlowGen(r *vRand, tier string, idx int) ([]int64, [][]int64) {
 		// clamp of maybeAdjust at a large static window
 		return []int64{maxW - 10, maxW}, [][]int64{{2, 4294967295}, {1, 16384, 5}, {3, 16379}, {5}}
 	case 3:
-		// finding witness: configured connection window above the first BDP estimate
+		// regression witness (fixed by 7a3f54f): configured connection window above the first BDP estimate
 		// (InitialConnWindowSize(1<<20), dynamic window on): uint32 underflow of n - limit
 		return []int64{65535, 1 << 20}, [][]int64{{1, 16384, 0}, {4, 131070}, {1, 16384, 0}}
 	case 4:
-		// finding witness: configured stream window above the BDP estimate: SETTINGS decrease
+		// regression witness (fixed by 7a3f54f): configured stream window above the BDP estimate: SETTINGS decrease
 		// while pendingUpdate (< old limit/4) exceeds the new limit -> negative window, nothing to read
 		return []int64{1 << 20, 65535}, [][]int64{{1, 200000, 0}, {2, 200000}, {3, 200000}, {4, 131070}, {2, 5}, {5}}
 	case 5:
